@@ -20,6 +20,31 @@ const COMMON_ASSUMPTIONS: &[&str] = &[
 pub fn all() -> Vec<Prop> {
     vec![
         Prop {
+            id: "C08",
+            title: "Pages sent through the controller arrive bit-exact, from any prior sign state",
+            level: "exploration",
+            exhaustive: false,
+            rule: "one evaluation = one seeded run. Phase A: 0-8 segments of real Sign controllers (any of the 11 types, 1-4 operations each) through the fault-injecting bus with controller crashes at drawn message indices, mixed with state-aware raw traffic, leave 1-3 real VirtualSigns in arbitrary states. Phase B (faults off): a fresh real Sign configures (or configure_if_needed where the property's precondition holds), sends 0-4 pages (pixel API and arbitrary bytes), flips, optionally shuts down and repeats; every post-condition of the property is asserted on the real sign. Non-trivial = phase B reached; distinct = distinct event-log hashes among those. distinct_secondary_measure = distinct (prior VirtualSign value, target type) pairs.",
+            real: &["Sign", "VirtualSignBus", "VirtualSign", "Page", "SignType"],
+            stubs: &["FaultyBus (phase A only)", "raw message generator (phase A only)", "DirectBus (pass-through SignBus in phase B)"],
+            assumptions: COMMON_ASSUMPTIONS,
+        },
+        Prop {
+            id: "C09",
+            title: "Controller data transfers are complete, ordered, correctly offset and counted",
+            level: "exploration",
+            exhaustive: false,
+            rule: "one evaluation = one seeded run of 1-7 configure/send_pages calls of the real Sign, each call's recorded message history checked attempt by attempt (ack before data, chunk offsets 0,16,32.. per item, concatenation equals the item, count equals chunks since the request, query only after the count, config block = SignType::to_bytes). Failure reports come from the real VirtualSign under chunk-level faults (scenario c09-real-sign) or from a stub replier scripted by the tape (scenario c09-stub-replier: arbitrary page sizes up to one 65536-byte item). Non-trivial = every run; distinct = distinct event-log hashes.",
+            real: &["Sign", "Page", "SignType::to_bytes", "VirtualSignBus + VirtualSign (c09-real-sign)"],
+            stubs: &["RecordingBus", "FaultyBus (chunk-level faults)", "StubSign replier (c09-stub-replier)"],
+            assumptions: &[
+                "sampling, not proof",
+                "SignType::to_bytes is taken as the definition of 'the block of the controller's sign type'",
+                "total chunks per attempt stay below 65536 (16-bit count field)",
+                "flipdot is compiled from /repo's working tree with --cfg flipdot_verif, opt-level 2, overflow-checks and debug-assertions on",
+            ],
+        },
+        Prop {
             id: "C12",
             title: "A virtual sign never panics, whatever is sent on the bus",
             level: "exploration",
